@@ -645,8 +645,14 @@ func (oc *orderChecker) checkLoop(l *loopInfo) []string {
 				if mc != nil {
 					for _, bnd := range mc.Bindings {
 						if cl := oc.class(l, bnd, map[ssa.Value]bool{}); cl == scShared {
-							if pt, ok := bnd.Type().Underlying().(*types.Pointer); ok && namedIs(pt.Elem(), "sync", "WaitGroup") {
-								continue
+							if pt, ok := bnd.Type().Underlying().(*types.Pointer); ok {
+								if namedIs(pt.Elem(), "sync", "WaitGroup") {
+									continue
+								}
+								// the variable holding a *sync.WaitGroup (a group handed in by the caller)
+								if p2, ok := pt.Elem().Underlying().(*types.Pointer); ok && namedIs(p2.Elem(), "sync", "WaitGroup") {
+									continue
+								}
 							}
 							oc.fail(l, in, "goroutine started per key captures shared variable "+bnd.Name())
 						}
